@@ -28,6 +28,7 @@ type c15World struct {
 	chans []chanRef
 	props []*rtProposer
 	ref   map[string]*rtMeta // reference row per channel (literal reading)
+	lex   map[string]*rtMeta // same, but epochs ordered lexicographically (channel epoch first)
 	// strict = the literal reading of "leader epoch never decreases" for a
 	// candidate that raises the channel epoch (see refUpsert).
 	pending []rtCmd
@@ -40,7 +41,7 @@ type c15World struct {
 
 func runC15(t *testing.T, r *simkit.Run) {
 	simkit.Bubble(t, r, func() {
-		w := &c15World{r: r, tp: r.Tape, ref: map[string]*rtMeta{}}
+		w := &c15World{r: r, tp: r.Tape, ref: map[string]*rtMeta{}, lex: map[string]*rtMeta{}}
 		defer func() {
 			if w.n != nil {
 				w.n.close()
@@ -193,6 +194,7 @@ func (w *c15World) snapAll() [][]byte {
 
 type c15Expect struct {
 	outcome rtOutcome
+	lexOut  rtOutcome // outcome under the lexicographic-epoch reading
 	created []bool
 	touched []chanRef
 	changed map[string]bool
@@ -207,6 +209,11 @@ func (w *c15World) model(c rtCmd) c15Expect {
 		// the command codec canonicalises the candidate on both sides of the
 		// wire, so an unset route generation travels as its default value
 		next, out := refUpsert(cur, refNormalize(c.meta), true)
+		ln, lo := refUpsert(w.lex[c.ch.id], refNormalize(c.meta), false)
+		if lo == rtApplied {
+			w.lex[c.ch.id] = ln
+		}
+		e.lexOut = lo
 		e.outcome, e.touched = out, []chanRef{c.ch}
 		if out == rtApplied {
 			e.changed[c.ch.id] = !rtEqual(cur, next)
@@ -225,6 +232,7 @@ func (w *c15World) model(c rtCmd) c15Expect {
 			ch := chanRef{id: it.Meta.ChannelID, typ: it.Meta.ChannelType, hs: it.HashSlot}
 			next, created, _ := refCreate(w.ref[ch.id], it.Meta)
 			w.ref[ch.id] = next
+			w.lex[ch.id], _, _ = refCreate(w.lex[ch.id], it.Meta)
 			e.created = append(e.created, created)
 			e.touched = append(e.touched, ch)
 			e.changed[ch.id] = created
@@ -232,6 +240,11 @@ func (w *c15World) model(c rtCmd) c15Expect {
 	case rtkRetention:
 		cur := w.ref[c.ch.id]
 		next, out := refRetention(cur, c.ret)
+		ln, lo := refRetention(w.lex[c.ch.id], c.ret)
+		if lo == rtApplied {
+			w.lex[c.ch.id] = ln
+		}
+		e.lexOut = lo
 		e.outcome, e.touched = out, []chanRef{c.ch}
 		if out == rtApplied {
 			e.changed[c.ch.id] = !rtEqual(cur, next)
@@ -241,6 +254,7 @@ func (w *c15World) model(c rtCmd) c15Expect {
 		e.touched = []chanRef{c.ch}
 		e.changed[c.ch.id] = w.ref[c.ch.id] != nil
 		delete(w.ref, c.ch.id)
+		delete(w.lex, c.ch.id)
 		w.deleted[c.ch.id] = true
 	}
 	return e
@@ -335,6 +349,10 @@ func (w *c15World) commit(maxBatch, dupBias int) {
 		switch c.kind {
 		case rtkUpsert, rtkRetention:
 			wantStale := exp.outcome == rtConflict
+			if wantStale != (res == fsm.ApplyResultStaleMeta) && (exp.lexOut == rtConflict) == (res == fsm.ApplyResultStaleMeta) && !rtEqual(w.ref[c.ch.id], w.lex[c.ch.id]) {
+				r.FailSig("leader-epoch-decreased", "channel-epoch-raised", fmt.Sprintf("%s: result %q follows a row in which an earlier write of this batch raised the channel epoch while lowering the leader epoch (literal reference row %s, lexicographic row %s)", c.desc, res, rtString(w.ref[c.ch.id]), rtString(w.lex[c.ch.id])), nil)
+				return
+			}
 			if wantStale != (res == fsm.ApplyResultStaleMeta) {
 				r.FailSig("result-mismatch", fmt.Sprintf("%d/%s", c.kind, exp.outcome), fmt.Sprintf("%s: result %q, reference outcome %s", c.desc, res, exp.outcome), nil)
 				return
@@ -391,6 +409,10 @@ func (w *c15World) commit(maxBatch, dupBias int) {
 				r.FailSig(class, sig, fmt.Sprintf("channel %s across index %d..%d: %s; before %s after %s", ch.id, cmds[0].Index, w.index, detail, rtString(pre[ch.id]), rtString(post)), nil)
 				return
 			}
+		}
+		if !rtEqual(post, w.ref[ch.id]) && rtEqual(post, w.lex[ch.id]) {
+			r.FailSig("leader-epoch-decreased", "channel-epoch-raised", fmt.Sprintf("channel %s inside index %d..%d: a write that raised the channel epoch was applied although it carried an older leader epoch; stored %s, literal reference %s (before the batch: %s)", ch.id, cmds[0].Index, w.index, rtString(post), rtString(w.ref[ch.id]), rtString(pre[ch.id])), nil)
+			return
 		}
 		if !rtEqual(post, w.ref[ch.id]) {
 			r.FailSig("row-differs-from-reference", "", fmt.Sprintf("channel %s after index %d: stored %s, reference %s (before the batch: %s)", ch.id, w.index, rtString(post), rtString(w.ref[ch.id]), rtString(pre[ch.id])), nil)
